@@ -100,14 +100,19 @@ pub fn unhex(s: &str) -> Option<Vec<u8>> {
 
 /// The compiled Lean model driver behind a line protocol.
 pub struct Lean {
-    child: Child,
-    stdin: ChildStdin,
-    stdout: BufReader<ChildStdout>,
+    child: Option<Child>,
+    stdin: Option<ChildStdin>,
+    stdout: Option<BufReader<ChildStdout>>,
     pub requests: u64,
 }
 
+/// `VERIF_NO_MODEL=1`: run the implementation-only oracles alone (used to search for a concrete
+/// failing input after a proof obligation or the correspondence broke); every model reply is "".
+pub fn no_model() -> bool { std::env::var("VERIF_NO_MODEL").map(|v| v == "1").unwrap_or(false) }
+
 impl Lean {
     pub fn spawn() -> Self {
+        if no_model() { return Lean { child: None, stdin: None, stdout: None, requests: 0 }; }
         let exe = std::env::var("VERIF_DRIVER")
             .unwrap_or_else(|_| "/verif/lean/.lake/build/bin/driver".to_string());
         let mut child = Command::new(&exe)
@@ -117,15 +122,16 @@ impl Lean {
             .unwrap_or_else(|e| panic!("cannot start Lean driver {exe}: {e}"));
         let stdin = child.stdin.take().unwrap();
         let stdout = BufReader::new(child.stdout.take().unwrap());
-        Lean { child, stdin, stdout, requests: 0 }
+        Lean { child: Some(child), stdin: Some(stdin), stdout: Some(stdout), requests: 0 }
     }
     pub fn ask(&mut self, line: &str) -> String {
+        let (Some(stdin), Some(stdout)) = (self.stdin.as_mut(), self.stdout.as_mut()) else { return String::new(); };
         self.requests += 1;
-        self.stdin.write_all(line.as_bytes()).unwrap();
-        self.stdin.write_all(b"\n").unwrap();
-        self.stdin.flush().unwrap();
+        stdin.write_all(line.as_bytes()).unwrap();
+        stdin.write_all(b"\n").unwrap();
+        stdin.flush().unwrap();
         let mut out = String::new();
-        self.stdout.read_line(&mut out).expect("driver died");
+        stdout.read_line(&mut out).expect("driver died");
         if out.is_empty() {
             panic!("Lean driver closed its output on request: {}", &line[..line.len().min(200)]);
         }
@@ -135,8 +141,7 @@ impl Lean {
 
 impl Drop for Lean {
     fn drop(&mut self) {
-        let _ = self.child.kill();
-        let _ = self.child.wait();
+        if let Some(c) = self.child.as_mut() { let _ = c.kill(); let _ = c.wait(); }
     }
 }
 
